@@ -604,6 +604,7 @@ func sortedMap(c *lib.Ctx) {
 	var ops []string
 	nops := 5 + r.Intn(56)
 	over, del := 0, 0
+	readEvery := lib.Pick(r, []int{1, 1, 5, 0})
 	for i := 0; i < nops; i++ {
 		k := lib.Pick(r, keys)
 		switch x := r.Intn(10); {
@@ -635,7 +636,11 @@ func sortedMap(c *lib.Ctx) {
 		default:
 			ops = append(ops, "iterate")
 		}
-		// full comparison after every op
+		// full comparison: after every op, every 5th op, or only at the end (reads re-sort the map, so a
+		// stale "sorted" flag is only visible when several mutations happen between two ordered reads)
+		if readEvery == 0 && i != nops-1 || readEvery > 1 && i%readEvery != 0 && i != nops-1 {
+			continue
+		}
 		var gotK []string
 		var gotV []string
 		for k, v := range sm.All() {
